@@ -89,7 +89,9 @@ class Terms:
             parts = []
             for (bb, i, node) in ds:
                 parts.append(self.of_def(bb, i, node, depth + 1))
-            r = ("phi", tuple(sorted(set(parts), key=repr)))
+            uniq = sorted(set(parts), key=repr)
+            # copies of one definition (the duplicated `?` of a spliced helper) are one definition
+            r = uniq[0] if (len(uniq) == 1 and getattr(self.body, "spliced", False)) else ("phi", tuple(uniq))
         else:
             bb, i, node = ds[0]
             self.memo[l] = ("rec", l)
